@@ -425,7 +425,7 @@ Proof.
   - intros k d H. cbn in H. destruct H as [H|[H|[]]]; inversion H; subst; reflexivity.
 Qed.
 
-(* D19: Option of a multi-field set between two accounts: the IDL's `None` alternative is the empty struct, the
+(* option-multi-none: Option of a multi-field set between two accounts: the IDL's `None` alternative is the empty struct, the
    client (and the decoder) use one placeholder account *)
 Lemma idl_accounts_option_refuted :
   exists pid a ts ms ms', client_metas SHIPPED pid a ts = Some (ms, []) /\
@@ -435,7 +435,7 @@ Proof.
   eexists. eexists. split; [reflexivity|]. split; [reflexivity|]. discriminate.
 Qed.
 
-(* D20: MaybeMut<false, Mut<AccountInfo>>: the client clears the writable flag the IDL (and on-chain validation) keep *)
+(* false-modifier: MaybeMut<false, Mut<AccountInfo>>: the client clears the writable flag the IDL (and on-chain validation) keep *)
 Lemma idl_accounts_false_modifier_refuted :
   exists pid a ts ms ms', client_metas SHIPPED pid a ts = Some (ms, []) /\
     flatten 10 pid [] (idl_of SHIPPED pid a) ts = Some (ms', []) /\ ms <> ms'.
